@@ -1281,6 +1281,20 @@ func (e *govEnv) hostileCreate() []Tx {
 		signer = e.freshAccount()
 		m.Proposer = signer.Addr
 		kind = "PROPOSAL_CREATE/broke-proposer"
+		if r.Intn(2) == 0 {
+			// a config update that would RAISE the minimal fee above what every client pays: harmless, because a
+			// proposer without funds cannot create it (and it would still have to pass)
+			m.ProposalType = governance.ProposalTypeConfigUpdate
+			m.ConfigUpdate = "feeOption.minFeeDecimal:" + strconv.Itoa(r.Intn(9))
+			if oc := e.optFor(governance.ProposalTypeConfigUpdate); oc != nil {
+				m.InitialFunding = govAmt("OLT", new(big.Int).Set(oc.InitialFunding.BigInt()))
+				m.FundingGoal = balance.NewAmountFromBigInt(new(big.Int).Set(oc.FundingGoal.BigInt()))
+				m.FundingDeadline = e.c.H + oc.FundingDeadline
+				m.VotingDeadline = m.FundingDeadline + oc.VotingDeadline
+				m.PassPercentage = oc.PassPercentage
+			}
+			kind = "PROPOSAL_CREATE/broke-proposer-fee-raise"
+		}
 	case 11:
 		bt := []governance.ProposalType{0, 0x23, governance.ProposalTypeInvalid, 0x1f}
 		m.ProposalType = bt[r.Intn(len(bt))]
